@@ -61,7 +61,14 @@ def incoming_catalogue():
                  "CreateGroupsNotification", "RemoveGroupsNotification", "SubjectGroupsNotification") + ATTRS_ONLY:
         C, node, role, keep = T._sample(name)
         out[name] = (node, IN_OWNER.get(name))
+    for name in CONSUMED_BY_ENCRYPTION:
+        out[name] = (T._sample(name)[1], None)
     return out
+
+
+# notifications the encryption control layer handles itself (answers with an ack and a key request / key upload): nothing surfaces, and
+# nobody else answers them a second time
+CONSUMED_BY_ENCRYPTION = ("IdentityChangeNotification",)
 
 
 def protocol_layers(st):
@@ -99,6 +106,23 @@ def pending_request(ctx, st, bottom):
 ATTRS_ONLY = ("RetryIncomingReceipt", "RetryIncomingReceipt-group")     # delivered upward as plain receipts: the retry body is the encryption layer's business
 
 
+def _no_twins(answers):
+    """obligation: no two of the stanzas agree in tag, id, class, type, addressee and participant"""
+    import z3
+    terms = []
+    for i in range(len(answers)):
+        for j in range(i):
+            a, b = answers[i], answers[j]
+            if a.tag != b.tag or len(a.children) != len(b.children):
+                continue
+            same = core.conj(*[SC.val_eq(hooks.dict_get(a.attributes, k), hooks.dict_get(b.attributes, k)) for k in ("id", "class", "type", "to", "participant")])
+            if same is True:
+                return False
+            if same is not False:
+                terms.append(z3.Not(same))
+    return core.conj(*terms)
+
+
 def h_incoming(ctx, name, flags, enc):
     st, bottom, app, mgr = _stack(flags, enc)
     node, owner = incoming_catalogue()[name]
@@ -109,11 +133,21 @@ def h_incoming(ctx, name, flags, enc):
         sid = hooks.dict_get(sym.attributes, "id")
         if sid is not None:
             ctx.assume(sid != pid)           # replies to outstanding requests are C08's subject
+    n_down = len(bottom.down)
     bottom.inject(sym)
+    # what the layers send down in response (acks, receipts, key requests): no stanza twice -- two layers reacting to the same incoming
+    # stanza with the same answer is the duplication the parallel groups must not produce
+    answers = bottom.down[n_down:]
+    dup = ("no answer to the stanza is sent down twice (%d answers)" % len(answers), _no_twins(answers))
+    if name in CONSUMED_BY_ENCRYPTION:
+        if not enc:
+            return []
+        return [("handled by the encryption layers: nothing surfaces (got %d)" % len(app.up), len(app.up) == 0),
+                ("answered with exactly one ack (%d)" % len([x for x in answers if x.tag == "ack"]), len([x for x in answers if x.tag == "ack"]) == 1), dup]
     on = owner is None or _flags(flags)[owner]
     if not on:
-        return [("module-off:nothing-delivered (got %d)" % len(app.up), len(app.up) == 0)]
-    obs = [("exactly-one-entity (got %d)" % len(app.up), len(app.up) == 1)]
+        return [("module-off:nothing-delivered (got %d)" % len(app.up), len(app.up) == 0), dup]
+    obs = [("exactly-one-entity (got %d)" % len(app.up), len(app.up) == 1), dup]
     if pid is not None:
         obs.append(("an outstanding request is untouched by a stanza that is not its reply (callbacks %s)" % calls, not calls and hooks.sx_in(pid, player.iqRegistry)))
     if name in ATTRS_ONLY and len(app.up) == 1 and app.up[0] is not None:
